@@ -126,6 +126,14 @@ def mutants(src):
     lines = tokens_of(src)
     for li, toks in enumerate(lines):
         for i in range(1, len(toks)):
+            if re.fullmatch(r"[0-9.]+", toks[i]) and not (i == 0):
+                # extreme magnitudes in every numeric operand position (float('inf'), denormal, huge integer)
+                for lit in ("1E400", "1E-400", "99999999999999999999"):
+                    t = list(toks)
+                    t[i] = lit
+                    new = [" ".join(x) for x in lines]
+                    new[li] = " ".join(t)
+                    yield "\n".join(new)
             for g in alt_groups():
                 if toks[i] in g:
                     for alt in g:
@@ -171,7 +179,7 @@ def extreme_inputs():
             "10 FOR I=1 TO 2", "10 IF A THEN", "10 IF A=1 THEN ELSE", "10 ON A GOTO", "10 ON ERR GOTO 10:ON ERR GOTO 10", "10 A=.", "10 A=1E", "10 A=--1", "10 A=& H FF",
             "10 A=&H FF", "10 FOR I=1 TO 2:FOR J=1 TO 2:NEXT I,J", "10 FOR I=1 TO 2:NEXT I,I", "10 FOR I=1 TO 2:FOR J=1 TO 2:FOR K=1 TO 2:NEXT J,K,I",
             "10 FOR I=1 TO 2:FOR J=1 TO 2:NEXT J,I:NEXT", "10 FOR G=1 TO 2:FOR H=1 TO 2:FOR I=1 TO 2:FOR J=1 TO 2:NEXT J,I:NEXT:NEXT", "10 NEXT I:FOR I=1 TO 2", "10 FOR I=1 TO 2:NEXT J",
-            "10 POKE &HFFD8,0", "10 HCIRCLE(1,2),3,", "10 HCIRCLE(1,2),3,,", "10 PRINT@", "10 INPUT", "10 LINE INPUT \"X\";A", "10 DIM", "10 READ", "10 DATA", '10 PRINT "X" : REM RUN prog', "10 REM RUN prog", '10 PRINT "RUN prog"']
+            "10 POKE &HFFD8,0", "10 POKE 1E309,1", "10 POKE -1E400,0", "10 POKE 65496.5,0", "10 IF A THEN POKE 1 E 999,0", "10 SOUND 1E400,1", "10 A(1E400)=1", "10 ON 1E400 GOTO 10", "10 FOR I=1 TO 1E400:NEXT", "10 PRINT TAB(1E400)", "10 HCIRCLE(1,2),3,", "10 HCIRCLE(1,2),3,,", "10 PRINT@", "10 INPUT", "10 LINE INPUT \"X\";A", "10 DIM", "10 READ", "10 DATA", '10 PRINT "X" : REM RUN prog', "10 REM RUN prog", '10 PRINT "RUN prog"']
     return srcs
 
 
